@@ -163,6 +163,10 @@ func init() {
 		r.checkArms(ld, filterEnc(famBlock), func(Encoding) map[string]bool { return comps }, true, false)
 		r.checkLemmas(ld, "C09")
 	}
+	checks["C16"] = func(ld *Loaded, r *Run) {
+		r.verifyHelpers(ld, propFilter("C16"))
+		r.checkLemmas(ld, "C16")
+	}
 	checks["C14"] = func(ld *Loaded, r *Run) {
 		r.verifyHelpers(ld, nil)
 		ir := set("I", "R")
